@@ -173,7 +173,8 @@ INT_T = [
     ("bits_w", "i", "LinComb.from_bits({i}.to_bits({w}))"),
     ("bit0", "b", "{i}.to_bits()[0]"), ("from_bits_any", "i", "LinComb.from_bits([{i}, {i}, {b}, {i}])"),
     ("from_bits_mixed", "i", "LinComb.from_bits([{b}, {i} * {i}, {K}])"),
-    ("tobool", "b", "LinCombBool({b} * {b})"),
+    ("tobool", "b", "LinCombBool({b} * {b})"), ("tobool_i", "b", "LinCombBool({i})"),
+    ("if_else_conv", "i", "LinCombBool({i}).if_else({i}, {i})"), ("if_else_conv_c", "i", "LinCombBool({i}).if_else({K}, {i})"),
 ]
 BOOL_T = [
     ("band_ss", "b", "{b} & {b}"), ("band_sc", "b", "{b} & {B}"), ("band_cs", "b", "{B} & {b}"),
@@ -183,7 +184,8 @@ BOOL_T = [
     ("badd", "i", "{b} + {b}"), ("badd_i", "i", "{b} + {i}"), ("bsub", "i", "{b} - {i}"), ("brsub", "i", "{K} - {b}"),
     ("bmul", "i", "{b} * {i}"), ("bmul_b", "i", "{b} * {b}"), ("bneg", "i", "-{b}"),
     ("beq", "b", "{b} == {b}"), ("bne", "b", "{b} != {b}"), ("blt", "b", "{b} < {b}"), ("bge", "b", "{b} >= {B}"),
-    ("bpow", "b", "{b} ** {k}"),
+    ("bpow", "b", "{b} ** {k}"), ("beq_K", "b", "{b} == {K}"), ("blt_K", "b", "{b} < {K}"), ("bne_Kr", "b", "{K} != {b}"),
+    ("bge_Kr", "b", "{K} >= {b}"),
     ("ite_b", "i", "if_then_else({b}, {b}, {b})"),
     ("int_and_bool", "b", "{b} & ({b} + 0)"),
 ]
